@@ -858,9 +858,16 @@ def main(argv):
         rec = replay(argv[1], do_compile="--no-compile" not in argv)
         return 1 if rec["outcome"] == "FAIL" else 0
     req = json.load(sys.stdin)
+    # Programs under test (and comptime expressions evaluated by the compiler) may print: keep the real
+    # stdout for the JSON answer only and send everything else written to fd 1 to stderr.
+    sys.stdout.flush()
+    answer = os.fdopen(os.dup(1), "w")
+    os.dup2(2, 1)
     recs = run_request(req)
-    json.dump(recs, sys.stdout)
-    sys.stdout.write("\n")
+    sys.stdout.flush()
+    json.dump(recs, answer)
+    answer.write("\n")
+    answer.flush()
     return 0
 
 
